@@ -413,6 +413,25 @@ def mapsExpanded (T : Tables) (B : BranchTab) : Bool :=
       | some es => es.any (fun e => e.tgt == .selfItems && e.conds.isEmpty)
       | none => false)
 
+/-- which child value an entry draws its branches from: `some (some i)` = field `i`, `some none` = the node's own
+map items, `none` = nothing (unrecognised) -/
+def Target.key : Target → Option (Option Nat)
+  | .field i => some (some i)
+  | .elems i => some (some i)
+  | .mapItems i => some (some i)
+  | .selfItems => some none
+  | .unknown => none
+
+/-- no two entries of a constructor case draw from the same child: no branch is yielded twice -/
+def distinctEntries : List Entry → Bool
+  | [] => true
+  | e :: rest => rest.all (fun e' => e'.tgt.key != e.tgt.key) && distinctEntries rest
+
+def distinctTab (tab : BranchTab) : Bool :=
+  tab.all (fun o => match o with
+    | none => true
+    | some es => distinctEntries es)
+
 /-- `semantic_subset_structural`'s side condition -/
 def semanticSubset (T : Tables) : Bool :=
   coversTab T.semantic T.structural && mapsExpanded T T.structural
@@ -420,7 +439,7 @@ def semanticSubset (T : Tables) : Bool :=
 /-- `structural_visits_all`'s side condition: the structural constructor lists every node-typed field of every
 node type (skipping it only when it is nil) -/
 def branchesComplete (T : Tables) : Bool :=
-  coversTab (schemaTab T) T.structural && mapsExpanded T T.structural
+  coversTab (schemaTab T) T.structural && mapsExpanded T T.structural && distinctTab T.structural
 
 /-! ## 5. walk.Generic -/
 
